@@ -26,7 +26,7 @@ def h_rest_glue_cmd_scheduler_go : Nat := 0x3c43505e4dbc9033
 def h_rest_glue_cmd_server_go : Nat := 0xd3e4227d0e62d35b
 
 /-- hash of the normalised skeleton of * (cmd/root.go) -/
-def h_rest_glue_cmd_root_go : Nat := 0xa1ea6e3b0b8e6f12
+def h_rest_glue_cmd_root_go : Nat := 0x3fbb585785bea69d
 
 /-- hash of the normalised skeleton of * (cmd/signal.go) -/
 def h_rest_glue_cmd_signal_go : Nat := 0xbac6e0e320d3f1d7
@@ -80,7 +80,7 @@ def h_rest_glue_internal_dag_errors_go : Nat := 0x1ecee6b56e984c3d
 def h_rest_glue_internal_dag_syncmap_go : Nat := 0x8cc4f4db8968ec69
 
 /-- hash of the normalised skeleton of * (internal/config/config.go) -/
-def h_rest_glue_internal_config_config_go : Nat := 0xf5b12a3b078c41ff
+def h_rest_glue_internal_config_config_go : Nat := 0xb0b482f837a8d4c3
 
 /-- hash of the normalised skeleton of * (internal/frontend/frontend.go) -/
 def h_rest_glue_internal_frontend_frontend_go : Nat := 0x2e0a6aa4be0681b2
